@@ -48,6 +48,7 @@ var parserWorkReceiveChannel = func() chan<- jobIn {
 		getWorkLoop:
 			for job := range inChan {
 				verifJSONWorkerEvent(verifWID, job.outChan, "wtake", job.lines[0])
+				verifJSONBatchDelay(job.lines[0])
 				outJobs := make([]jobOutRecord, len(job.lines))
 				for i := range outJobs {
 					out := &outJobs[i]
